@@ -56,7 +56,7 @@ NOTES = {  # seed -> (detected_by, note) overriding / complementing the logged r
  'C03-r2-2': ('C03 (sequential-meaning)', 'missed at first: no program had a downstream stage that ignores its stdin followed by a statement writing to the same stream; caught after the program and its literal expectation were added'),
  'C05-r2-1': ('C05 (exit, method variants)', 'missed at first: no try block was used as a method; caught after the method-try / method-runmode-try / method-trypipe variants were added'),
  'C05-r2-2': ('C05 (stdout, nested variants)', 'missed at first: no block of one kind was nested in a function of the other run mode; caught after the nested variants were added'),
- 'C19-2': ('NOT DETECTED', 'needs a pipe constructor that fails while returning a typed-nil (pty without /dev/ptmx, or a no_pipe_net build): no such failure can be provoked from the command alphabet'),
+ 'C19-2': ('C19 (shell-survives)', 'caught since the child murex is built with the net pipe types (tag no_pipe_net) and `pipe a --tcp-dial nosuch` — a constructor that fails while returning a typed nil pointer — joined the child sequences: `pipe a --tcp-dial nosuch; pipe a; !pipe a` kills the shell 2 s later (64 violations, clause shell-survives)'),
 }
 ROOT = '/verif'
 logs = ''.join(open(f).read() for f in sorted(glob.glob(f'{ROOT}/.work/seedrun-*.log')) + sorted(glob.glob(f'{ROOT}/.work/seed2run-*.log')) + sorted(glob.glob(f'{ROOT}/.work/seed5run-*.log')))
